@@ -137,7 +137,7 @@ func (w *World) pickRelated(label string, a int) int {
 	if w.init[a] && w.t.Chance("ops", label+".rel", 1, 3) {
 		var cands []int
 		for i := 0; i < nPoints; i++ {
-			if w.init[i] && (w.mp[i].Eq(w.mp[a]) || w.mp[i].Eq(w.mp[a].Neg())) {
+			if w.init[i] && (w.mp[i].Eq(w.mp[a]) || w.mp[i].Eq(w.mp[a].Neg()) || sameOrOppositeY(w.mp[i], w.mp[a])) {
 				cands = append(cands, i)
 			}
 		}
@@ -343,4 +343,13 @@ func (w *World) opWeights() []int {
 		}
 	}
 	return out
+}
+
+// sameOrOppositeY: the points share y up to sign (P, -P and their images
+// under the curve endomorphism).
+func sameOrOppositeY(a, b ref.Pt) bool {
+	if a.Inf || b.Inf {
+		return false
+	}
+	return a.Y.Cmp(b.Y) == 0 || new(big.Int).Add(a.Y, b.Y).Cmp(ref.P) == 0
 }
